@@ -38,6 +38,33 @@ async fn read_all<R: h3::quic::RecvStream>(tc: &TaskCtx, r: &mut R, api: &str, s
     }
 }
 
+/// Reads to the end through tokio's `AsyncRead`, in records of `rec` bytes: each record buffer is offered again and again until it
+/// is full (what `read_exact` does), so reads regularly start with a partly filled buffer.
+async fn read_all_tokio<R: tokio::io::AsyncRead + Unpin>(tc: &TaskCtx, r: &mut R, api: &str, sid: u64, rec: usize) -> Value {
+    let mut out: Vec<u8> = vec![];
+    loop {
+        let mut arr = vec![0u8; rec.max(1)];
+        let mut rb = tokio::io::ReadBuf::new(&mut arr);
+        let mut eof = false;
+        while rb.remaining() > 0 {
+            let before = rb.filled().len();
+            let x = tc.call(api, &format!("rx:{sid}"), poll_fn(|cx| std::pin::Pin::new(&mut *r).poll_read(cx, &mut rb))).await;
+            if x.is_err() {
+                out.extend_from_slice(rb.filled());
+                return json!({"k": "read_err", "bytes": jbytes(&out)});
+            }
+            if rb.filled().len() == before {
+                eof = true;
+                break;
+            }
+        }
+        out.extend_from_slice(rb.filled());
+        if eof {
+            return json!({"k": "eof", "bytes": jbytes(&out)});
+        }
+    }
+}
+
 async fn write_all<S: h3::quic::SendStreamUnframed<Bytes>>(tc: &TaskCtx, s: &mut S, payload: &[u8], api: &str) -> Value {
     let sid = s.send_id().into_inner();
     let mut buf = Bytes::copy_from_slice(payload);
@@ -104,6 +131,7 @@ pub fn wt_server_task(tc: TaskCtx, net: Net, cfg: Cfg, prog: Vec<Value>, plain_h
                 return;
             }
         };
+        let mut kept = vec![];
         for op in prog {
             let payload = bytes_of(&op["payload"]);
             match op["op"].as_str().unwrap_or("") {
@@ -132,7 +160,10 @@ pub fn wt_server_task(tc: TaskCtx, net: Net, cfg: Cfg, prog: Vec<Value>, plain_h
                     match r {
                         Ok(Some((sid, mut s))) => {
                             let id = s.recv_id().into_inner();
-                            let mut v = read_all(&tc, &mut s, "accept_uni", id).await;
+                            let mut v = match op["tokio_rec"].as_u64() {
+                                Some(n) => read_all_tokio(&tc, &mut s, "accept_uni", id, n as usize).await,
+                                None => read_all(&tc, &mut s, "accept_uni", id).await,
+                            };
                             v["session"] = json!(sess(sid));
                             v["sid"] = json!(id);
                             tc.ret("accept_uni", v);
@@ -148,7 +179,9 @@ pub fn wt_server_task(tc: TaskCtx, net: Net, cfg: Cfg, prog: Vec<Value>, plain_h
                             let id = s.recv_id().into_inner();
                             // `split`: the application splits the stream before reading (what was buffered behind the header
                             // must come out of the receiving half)
-                            let mut v = if op["split"] == true {
+                            let mut v = if let Some(n) = op["tokio_rec"].as_u64() {
+                                read_all_tokio(&tc, &mut s, "accept_bi", id, n as usize).await
+                            } else if op["split"] == true {
                                 let (_snd, mut rcv) = h3::quic::BidiStream::<Bytes>::split(s);
                                 read_all(&tc, &mut rcv, "accept_bi", id).await
                             } else {
@@ -158,7 +191,18 @@ pub fn wt_server_task(tc: TaskCtx, net: Net, cfg: Cfg, prog: Vec<Value>, plain_h
                             v["sid"] = json!(id);
                             tc.ret("accept_bi", v);
                         }
-                        Ok(Some(AcceptedBi::Request(req, _s))) => tc.ret("accept_bi", proj::request(&req)),
+                        Ok(Some(AcceptedBi::Request(req, mut rs))) => {
+                            // another request on the connection of the session (e.g. the CONNECT of a second session): answered 200 and kept open
+                            let sid = rs.id().into_inner();
+                            let resp = http::Response::builder().status(200).body(()).expect("response");
+                            let r = tc.call("send_response", &format!("tx:{sid}"), rs.send_response(resp)).await;
+                            let mut v = proj::request(&req);
+                            v["k"] = json!("other_request");
+                            v["sid"] = json!(sid);
+                            v["answered"] = json!(r.is_ok());
+                            tc.ret("accept_bi_request", v);
+                            kept.push(rs);
+                        }
                         Ok(None) => tc.ret("accept_bi", json!({"k": "none"})),
                         Err(e) => tc.ret("accept_bi", proj::stream_err(&e)),
                     }
